@@ -1049,6 +1049,10 @@ func (agg *aggregate) Process(ctx context.Context, man gdbi.Manager, in gdbi.InP
 						c++
 					}
 				}
+				if len(fieldValues) == 0 || i <= 0 {
+					// nothing to bucket (no numeric value), or no usable interval
+					return outErr
+				}
 				sort.Float64s(fieldValues)
 				min := fieldValues[0]
 				max := fieldValues[len(fieldValues)-1]
